@@ -79,6 +79,10 @@ def rule_reference_oracle(ctx):
     for s in FP.gen_strings(ctx.seed, "quick"):
         if s in seen or len(s) > 60 or "\n" in s:
             continue
+        r0 = FP.ref_parse(s)
+        if r0 is not None and needed_args(r0)[0] > 40:
+            # an explicit index like `{18446744073709551616}` would need that many arguments: not compiled
+            continue
         seen.add(s)
         pool.append(s)
     rnd.shuffle(pool)
